@@ -65,13 +65,30 @@ def generate(rng, tier, index):
     sc["policy"] = {"name": rng.choice(peers.POLICIES), "seed": rng.randrange(1000), "stride": rng.choice([1, 2, 3])}
     sc["fmt"] = {"order": rng.choice(["java", "byid", "shuffled"]), "seed": rng.randrange(1000), "final_newline": rng.random() < 0.7}
     sc["script_seed"] = rng.randrange(10**6)
-    decls = refsem.gen_decls(rng, max_vars=rng.randint(1, 6), cap=1024, allow_wide=rng.random() < 0.1)
+    bulk = rng.random() < 0.03
+    decls = refsem.gen_decls(
+        rng,
+        max_vars=rng.randint(1, 6),
+        cap=1024 if not bulk else 64,
+        allow_wide=rng.random() < 0.1,
+        pad_to=0 if not bulk else rng.randint(40, 130),
+    )
+    if not bulk and rng.random() < 0.1:
+        decls = refsem.gen_decls(rng, max_vars=rng.randint(2, 5), cap=256, pad_to=rng.randint(11, 14))
+    scale = rng.random() < 0.012
+    if scale:
+        # hundreds to thousands of variables (tiny domain product): long declarations, long key line,
+        # long replies, three- and four-digit ids
+        decls = refsem.gen_decls(rng, max_vars=rng.randint(2, 5), cap=32, pad_to=rng.choice([300, 900, 1500, 2600]))
     decls = [d if d["t"] == "b" or d["hi"] - d["lo"] < 8 else {"t": "i", "lo": d["lo"], "hi": d["lo"] + 7} for d in decls]
     while refsem.domain_product(decls) > 1024:
         decls.pop()
     sc["decls"] = decls
+    sc["timeout"] = rng.choice([None, None, None, 5.0])  # config.solver_timeout; psutil is absent -> warning + normal path
+    sc["shadow"] = rng.random() < 0.25  # a second Solver on the same backend, used alternately
     if direct:
-        pool = rng.sample(range(0, 3 * len(decls) + 3), len(decls))
+        span = rng.choice([3 * len(decls) + 3, 3 * len(decls) + 3, 150, 1200])
+        pool = rng.sample(range(0, max(span, len(decls) + 1)), len(decls))
         if rng.random() < 0.5:
             pool.sort()
         sc["ids"] = pool
@@ -83,11 +100,18 @@ def generate(rng, tier, index):
     single = rng.random() < 0.6  # majority: exactly one constraint so that conjunction equality is not vacuous
     for rnd in range(n_rounds):
         g = refsem.Gen(rng, decls, graph_nodes=rng.random() < 0.35)
+        g.big_graphs = True
         n_ens = (1 if rnd == 0 else 0) if single else rng.choice([0, 1, 1, 2])
+        if bulk and rnd == 0:
+            # many tiny constraints: the description gets long (hundreds of lines)
+            for _ in range(rng.randint(2, 6)):
+                cs = [refsem.gen_constraint(rng, g, rng.randint(1, 3), witness) for _ in range(rng.randint(20, 60))]
+                ops.append({"op": "ensure", "cs": cs, "nest": rng.randint(0, 2)})
         for _ in range(n_ens):
             cs = [refsem.gen_constraint(rng, g, rng.randint(1, budget_hi), witness) for _ in range(1 if single else rng.choice([1, 1, 2, 3]))]
             ops.append({"op": "ensure", "cs": cs, "nest": rng.randint(0, 2)})
-        ids = [i for i in range(len(decls)) if i not in keys and rng.random() < rng.choice([0.0, 0.5, 1.0])]
+        p_key = rng.choice([0.0, 0.5, 1.0]) if not scale else 1.0
+        ids = [i for i in range(len(decls)) if i not in keys and rng.random() < p_key]
         if ids or rng.random() < 0.15:
             rng.shuffle(ids)
             keys.update(ids)
@@ -168,7 +192,7 @@ def make_script(sc, res, expected_holder):
                 if d[1] == "b":
                     vals.append(rng.random() < 0.5)
                 else:
-                    vals.append(rng.choice([d[2], d[3], rng.randint(d[2], d[3]), rng.randint(-120, 120), 0, -1]))
+                    vals.append(rng.choice([d[2], d[3], rng.randint(d[2], d[3])]))
             expected_holder["last"] = ("answer", dict(zip(prog.names, vals)))
             res.hit("scripted:sat")
             return peers.write_answer_reply(prog.names, sorts, vals, order, oseed, fnl)
@@ -185,7 +209,7 @@ def make_script(sc, res, expected_holder):
                 if d[1] == "b":
                     facts.append((k, rng.random() < 0.5))
                 else:
-                    facts.append((k, rng.choice([d[2], d[3], rng.randint(-120, 120), 0, -1])))
+                    facts.append((k, rng.choice([d[2], d[3], rng.randint(d[2], d[3])])))
         expected_holder["last"] = ("deduce", dict(facts))
         res.hit("scripted:sat")
         return peers.write_deduction_reply(facts, prog.sort_of, order, oseed, fnl)
@@ -312,13 +336,22 @@ def run(sc) -> RunResult:
     keys = set()
     saved_cfg = (cspuz.config.backend_path, cspuz.config.solver_timeout)
     cspuz.config.backend_path = None
-    cspuz.config.solver_timeout = None
+    cspuz.config.solver_timeout = sc.get("timeout")
+    if sc.get("timeout"):
+        res.hit("knob:solver_timeout_set_without_psutil")
+    shadow = None
+    if sc.get("shadow") and mode == "honest":
+        shadow = _Shadow(cspuz, E, direct, backend, sugar_like)
+        res.hit("perturb:shadow_session_interleaved")
     try:
         with peers.installed_peer(peer), warnings.catch_warnings():
             warnings.simplefilter("ignore")
             for n_op, op in enumerate(sc["ops"]):
                 k = op["op"]
                 res.steps += 1
+                if shadow is not None and k in ("find_answer", "solve"):
+                    if not shadow.step(res, sc, peer, n_op, tag):
+                        continue
                 try:
                     if k == "ensure":
                         b = refsem.Builder(vars_)
@@ -408,6 +441,39 @@ def run(sc) -> RunResult:
     finally:
         cspuz.config.backend_path, cspuz.config.solver_timeout = saved_cfg
     return res
+
+
+class _Shadow:
+    """A second, fixed little program solved through the same backend between the operations of
+    the main session: state leaking between backend objects (class-level lists, caches) shows up
+    as a wrong description or wrong sol values on either side."""
+
+    DECLS = [{"t": "b"}, {"t": "i", "lo": -1, "hi": 1}, {"t": "b"}]
+    CONSTRAINTS = [["or", ["b", 0], ["b", 2], 0], ["le", ["i", 1], ["c", 0], 0], ["imp", ["b", 0], ["eq", ["i", 1], ["c", -1], 0], 0]]
+
+    def __init__(self, cspuz, E, direct, backend, sugar_like):
+        self.backend = backend
+        self.solver = cspuz.Solver()
+        self.vars = [self.solver.bool_var(), self.solver.int_var(-1, 1), self.solver.bool_var()]
+        b = refsem.Builder(self.vars)
+        self.solver.ensure([b.build(c) for c in self.CONSTRAINTS])
+        self.M = refsem.models(self.DECLS, self.CONSTRAINTS)
+
+    def step(self, res, sc, peer, n_op, tag):
+        n_before = len(peer.received)
+        peer.calls = 0
+        peer.cap = 2
+        try:
+            r = self.solver.find_answer(backend=self.backend)
+        except Exception as e:
+            res.violate("C03/unexpected-exception", f"op#{n_op} shadow session find_answer raised {type(e).__name__}: {str(e)[:160]} [{tag}]")
+            return False
+        sols = [v.sol for v in self.vars]
+        for j, (entry, text, prog) in enumerate(peer.received[n_before:]):
+            if not check_emission(res, dict(sc, backend=self.backend), tag + " shadow", n_op, entry, text, prog, self.DECLS, [0, 1, 2], self.CONSTRAINTS, set(), "find_answer", j == 0):
+                return False
+        check_find_answer(res, "C03", tag + " shadow", self.DECLS, self.CONSTRAINTS, r, sols, n_op, self.M)
+        return True
 
 
 def _check_reflection(res, tag, n_op, k, r, sols, decls, ids, last):
